@@ -64,7 +64,8 @@ def batch_mvp(m, v):
 
 
 def stable_division(a, b, epsilon=1e-7):
-    b = torch.where(b.abs().detach() > epsilon, b, torch.full_like(b, fill_value=epsilon) * b.sign())
+    # `copysign` rather than `* b.sign()`: sign(0) = 0 would leave an exactly-zero entry unguarded.
+    b = torch.where(b.abs().detach() > epsilon, b, torch.full_like(b, fill_value=epsilon).copysign(b))
     return a / b
 
 
